@@ -754,6 +754,8 @@ pub struct World {
     pub add_guard: Option<(u16, bool)>,
     /// Number of store events so far.
     pub store_events: u64,
+    /// ... by kind (descriptor, ring slot, available index, used_event, avail.flags)
+    pub store_kinds: [u64; 5],
     /// Configuration versions the config agent may still install (C13), front first.
     pub cfg_versions: Vec<Vec<u8>>,
     /// Every configuration version the device has exposed so far (including the initial one).
@@ -865,6 +867,7 @@ impl World {
             oplog_cap: 64,
             add_guard: None,
             store_events: 0,
+            store_kinds: [0; 5],
             cfg_versions: Vec::new(),
             cfg_exposed: Vec::new(),
         }
